@@ -1,8 +1,13 @@
 #!/bin/bash
-# usage: try_mutant.sh <patch.diff> <ID> [<ID> ...]   (env: VERIF_SEED, TIER)
-# Applies a patch to /repo's working tree, runs the quick checks, and ALWAYS reverts.
+# usage: try_mutant.sh <patch.diff> <ID> [<ID> ...]   (env: VERIF_SEED, TIER, MUT_BUILD)
+# Applies a patch to /repo's working tree, runs the checks, and ALWAYS reverts.
+# Builds in a separate build tree (MUT_BUILD, default /tmp/lead/mut) so that the registered
+# build tree /verif/.build (also used as prebuilt library by development agents) never
+# contains a mutant. The checks themselves are the registered commands' code (vf.py check).
 set -u
 patch="$1"; shift
+export VERIF_BUILD="${MUT_BUILD:-/tmp/lead/mut}"
+mkdir -p "$VERIF_BUILD"
 cd /repo || exit 2
 if ! git diff --quiet; then echo "repo working tree not clean"; exit 2; fi
 git apply "$patch" || { echo "patch does not apply"; exit 2; }
